@@ -1,5 +1,7 @@
 import MalVerif.Py.TieMSerialToDict
 import MalVerif.Py.TieMSerialFromDict
+import MalVerif.Py.TieMSerialFromDictMain
+import MalVerif.Py.TieMSerialHeapSet
 import MalVerif.Py.TieModelStep
 import MalVerif.Props.C07
 import MalVerif.PropsGen.C05
@@ -27,8 +29,12 @@ What is proved here, about the generated `model__to_dict` / `model__from_dict` (
   translated `_from_dict`), and the translated `_from_dict` *evaluated* on the document the translated `_to_dict`
   writes for a heap built by the translated `add_*` functions (explicit ids 5, 0, -3, non-default defense, extras,
   association with two members, attacker with two entry points) and on a hand-written document (id 0 last, negative
-  id, shorthand): same model / the described model.  The general tie of `_from_dict` to `Ser.fromDoc` is not proved
-  (see notes/NOTES_mserial.md).
+  id, shorthand): same model / the described model;
+* the general tie: `from_dict_is_model_load` (on a `DocOK` document the translated `_from_dict` returns iff the
+  reference loader accepts, with the same state), and through it, at full generality, `roundtrip_partial`,
+  `load_order_independent`, `loads_listed_assets`, `id_zero_loads`; `heapSet_invariant`;
+* the recorded differences between Python and the reference loader stay kernel-checked findings (`*_finding`) and are
+  exactly what `DocOK` excludes by name.
 -/
 namespace MalVerif.PropsGen.C07
 open MalVerif MalVerif.PyM MalVerif.PyM.Gen MalVerif.PyM.Tie MalVerif.Ser MalVerif.MS
@@ -281,5 +287,156 @@ theorem swapped_fields_finding :
 theorem version_key_mismatch (env : SEnv) (s : H) :
     (pyDocOf env s).metadata.bind (·.MAL_Toolbox_Version_space) = none ∧
     (pyDocOf env s).metadata.bind (·.MAL_Toolbox_Version_hyphen) = some env.toolbox_version := ⟨rfl, rfl⟩
+
+
+/-! ### the general tie of the translated `_from_dict`, and what it transfers
+
+`DocOK env d` = the decidable shape `docShape d` (the keys `_from_dict` subscripts are there, association entries have
+one type key with a two-field dictionary, dictionaries have pairwise different keys — `int` keys as a YAML file
+delivers them and `str` keys as a JSON file delivers them are both covered: conversions go through `Key.toInt?`) plus
+the named conditions that put exactly the recorded differences between Python and the reference loader outside:
+`DefsKnown` (`unknown_defense_finding`), `FieldsNotSwapped` (`swapped_fields_finding`), `EntryPointsListed`
+(`dangling_entry_point_finding`), `EntryIdsDistinct` (`entry_point_keys_finding` below), and the loop bound of
+`add_asset`.  `s0` is the heap `_from_dict` runs in (any heap whose attachment objects refer to allocated tuples; `{}`
+is one). -/
+
+/-- **`_from_dict` is the reference loader.**  On a `DocOK` document the translated `_from_dict` returns iff
+`Ser.fromDoc` (started in the abstraction of the new empty model) accepts, and then the returned heap abstracts to
+the reference result, carries the document's name, is coherent and has `HeapSet` -/
+theorem from_dict_is_model_load (env : SEnv) (hE : EqId env.model) (hL : Tie.FieldsDistinct env.lang) (s0 : H)
+    (h0 : ∀ u, ∀ r ∈ (s0.t u).entry_points, r < s0.efresh) (d : PyDoc) (hd : DocOK env d) :
+    (∀ s', model__from_dict s0 env d = .ok s' →
+      fromDocFrom env.lang (defsOkOf env d) (abs (H.newModel s0 (docName d))) (docOf d) = .ok (abs s') ∧
+      s'.name = docName d ∧ Inv (abs s') ∧ HeapSet s') ∧
+    (∀ e, model__from_dict s0 env d = .error e →
+      ∃ e', fromDocFrom env.lang (defsOkOf env d) (abs (H.newModel s0 (docName d))) (docOf d) = .error e') := by
+  obtain ⟨h1, h2⟩ := from_dict_tie env hE hL s0 h0 d hd
+  exact ⟨fun s' h => let ⟨a, b, c⟩ := h1 s' h; ⟨a, b, c.inv, c.heapset⟩, h2⟩
+
+/-- from the empty heap the reference run is `Ser.fromDoc` itself up to the content of unallocated store cells: its
+start state has no live objects (`EmptyModel`), which is all the load theorems of `Props/C07.lean` use -/
+example (nm : String) : EmptyModel (abs (H.newModel {} nm)) ∧ fromDoc MS.Demo.lang (fun _ => true) = fromDocFrom MS.Demo.lang (fun _ => true) {} :=
+  ⟨emptyModel_abs_newModel _ _, rfl⟩
+
+/-- **round trip** (C07, first sentence) for the translated pair: for every heap `s` as in `saved_file_loads_partial`
+(plus: the defense values passed the pjs range check when they were assigned, the loop bound of `add_asset`), writing it
+with the translated `_to_dict`, passing the document through a YAML or a JSON file, and loading it with the
+translated `_from_dict` (in any heap `s0`) gives a heap with the same name that shows the same assets (id, name, type,
+every defense value, extras), associations and attackers; it is coherent, and saving it again with the translated
+`_to_dict` reproduces the same content -/
+theorem roundtrip_partial (env : SEnv) (hE : EqId env.model) (hL : Tie.FieldsDistinct env.lang) (f : Format)
+    (s s0 : H) (h0 : ∀ u, ∀ r ∈ (s0.t u).entry_points, r < s0.efresh)
+    (hs : HeapSet s) (ha : AssetsOK env.lang s) (hfl : FloatsOk env s) (hfuel : s.assets.length + 1 ≤ env.model.whileFuel)
+    (hi : Inv (abs s)) (hv : Valid env.lang (abs s)) (hatt : AttIdsDistinct (abs s))
+    (hres : LinksResolve env.lang (abs s)) (hdef : DefKeysDistinct (abs s)) (hname : AttNamesNonempty (abs s)) :
+    ∃ d s', model__to_dict s env = .ok d ∧ model__from_dict s0 env (f.rt d) = .ok s' ∧ s'.name = s.name ∧
+      SameModel env.lang (abs s') (abs s) ∧ SameFile env.lang (abs s') (abs s) ∧ Inv (abs s') ∧ HeapSet s' ∧
+      AssetsOK env.lang s' ∧
+      ∃ d', model__to_dict s' env = .ok d' ∧ docOf d' = docOf d ∧ docName d' = docName d :=
+  roundtrip_tie env hE hL f s s0 h0 hs ha hfl hfuel hi hv hatt hres hdef hname
+
+/-- **any order of the asset entries**: two `DocOK` documents that list the same asset entries (pairwise distinct ids
+and names) in any order and agree otherwise: if the translated `_from_dict` returns for one it returns for the other,
+with the same assets up to order and the same associations and attackers -/
+theorem load_order_independent (env : SEnv) (hE : EqId env.model) (hL : Tie.FieldsDistinct env.lang) (s0 : H)
+    (h0 : ∀ u, ∀ r ∈ (s0.t u).entry_points, r < s0.efresh) (d d' : PyDoc) (hd : DocOK env d) (hd' : DocOK env d')
+    (hp : (d.assets.getD []).Perm (d'.assets.getD [])) (hl : d'.associations = d.associations)
+    (ht : d'.attackers = d.attackers) (hm : docName d' = docName d)
+    (hid : ((docOf d).assets.map (fun e => (objOf e).id)).Nodup)
+    (hnm : ((docOf d).assets.map (fun e => (objOf e).name)).Nodup)
+    (s : H) (hok : model__from_dict s0 env d = .ok s) :
+    ∃ s', model__from_dict s0 env d' = .ok s' ∧
+      (s.assets.map (assetView env.lang (abs s))).Perm (s'.assets.map (assetView env.lang (abs s'))) ∧
+      s.associations.map (assocView (abs s)) = s'.associations.map (assocView (abs s')) ∧
+      s.attackers.map (attView (abs s)) = s'.attackers.map (attView (abs s')) := by
+  obtain ⟨s', h1, h2⟩ := load_order_tie env hE hL s0 h0 d d' hd hd' hp hl ht hm hid hnm s hok
+  exact ⟨s', h1, h2.assets, h2.assocs, h2.attackers⟩
+
+/-- **a file loads to the assets it lists**, in file order, with the ids, names (generated for the shorthand), types,
+defense values and extras that are written -/
+theorem loads_listed_assets (env : SEnv) (hE : EqId env.model) (hL : Tie.FieldsDistinct env.lang) (s0 : H)
+    (h0 : ∀ u, ∀ r ∈ (s0.t u).entry_points, r < s0.efresh) (d : PyDoc) (hd : DocOK env d)
+    (hid : ((docOf d).assets.map (fun e => (objOf e).id)).Nodup)
+    (hnm : ((docOf d).assets.map (fun e => (objOf e).name)).Nodup)
+    (s : H) (hok : model__from_dict s0 env d = .ok s) :
+    s.assets.map (assetView env.lang (abs s)) = (docOf d).assets.map (fun e => objView env.lang (objOf e)) :=
+  Tie.loads_listed_assets env hE hL s0 h0 d hd hid hnm s hok
+
+/-- **id 0** (any written id: 0, negative, gaps): an entry under a key that reads as the integer `i` becomes a live
+asset with id `i`, the written name and type -/
+theorem id_zero_loads (env : SEnv) (hE : EqId env.model) (hL : Tie.FieldsDistinct env.lang) (s0 : H)
+    (h0 : ∀ u, ∀ r ∈ (s0.t u).entry_points, r < s0.efresh) (d : PyDoc) (hd : DocOK env d)
+    (hid : ((docOf d).assets.map (fun e => (objOf e).id)).Nodup)
+    (hnm : ((docOf d).assets.map (fun e => (objOf e).name)).Nodup)
+    (s : H) (hok : model__from_dict s0 env d = .ok s)
+    (k : Key) (nm ty : String) (defs : List (String × String)) (ex : Option String) (i : Int) (hk : k.toInt? = some i)
+    (he : (k, AssetEntry.full nm ty defs ex) ∈ (docOf d).assets) :
+    ∃ a ∈ s.assets, attrInt (s.a a).id = i ∧ attrStr (s.a a).name = nm ∧ (s.a a).type = ty := by
+  have h := loads_listed_assets env hE hL s0 h0 d hd hid hnm s hok
+  have hm : objView env.lang (objOf (k, AssetEntry.full nm ty defs ex)) ∈ s.assets.map (assetView env.lang (abs s)) := by
+    rw [h]; exact List.mem_map.2 ⟨_, he, rfl⟩
+  obtain ⟨a, ha, e⟩ := List.mem_map.1 hm
+  refine ⟨a, ha, ?_, ?_, ?_⟩
+  · have := congrArg AssetView.id e
+    simp [assetView, objView, objOf, hk] at this
+    exact this
+  · have := congrArg AssetView.name e
+    simp [assetView, objView, objOf] at this
+    exact this
+  · have := congrArg AssetView.type e
+    simp [assetView, objView, objOf] at this
+    exact this
+
+theorem handPy_defsKnown : DefsKnown demoEnv.lang handPy ∧ DefsKnown demoEnv.lang handPy2 := by
+  constructor <;>
+  · intro e he
+    simp only [handPy, handPy2, Option.getD_some, List.mem_cons, List.not_mem_nil, or_false] at he
+    rcases he with rfl | rfl | rfl
+    all_goals first
+      | trivial
+      | (intro x hx
+         simp only [Option.getD_some, Option.getD_none, List.mem_cons, List.not_mem_nil, or_false] at hx
+         first | (subst hx; decide +kernel) | exact absurd hx (by simp))
+
+/-- the hypotheses of the general theorems are satisfiable: the hand-written documents are `DocOK`, the demo
+environment has identity as object equality and distinct field names, the empty heap is a start heap -/
+example : DocOK demoEnv handPy ∧ DocOK demoEnv handPy2 ∧ EqId demoEnv.model ∧ Tie.FieldsDistinct demoEnv.lang ∧
+    (∀ u, ∀ r ∈ (({} : H).t u).entry_points, r < ({} : H).efresh) ∧
+    FloatsOk demoEnv demoHeap ∧ demoHeap.assets.length + 1 ≤ demoEnv.model.whileFuel := by
+  have hs1 : FieldsNotSwapped demoEnv.lang handPy := by unfold FieldsNotSwapped; decide +kernel
+  have hs2 : FieldsNotSwapped demoEnv.lang handPy2 := by unfold FieldsNotSwapped; decide +kernel
+  have hl1 : EntryPointsListed handPy := by unfold EntryPointsListed; decide +kernel
+  have hl2 : EntryPointsListed handPy2 := by unfold EntryPointsListed; decide +kernel
+  have he1 : ∀ t ∈ handPy.attackers.getD [], EntryIdsDistinct t.2 := by decide +kernel
+  have he2 : ∀ t ∈ handPy2.attackers.getD [], EntryIdsDistinct t.2 := by decide +kernel
+  have hf : FloatsOk demoEnv demoHeap := by unfold FloatsOk; decide +kernel
+  exact ⟨⟨by decide +kernel, handPy_defsKnown.1, hs1, hl1, he1, by decide⟩,
+    ⟨by decide +kernel, handPy_defsKnown.2, hs2, hl2, he2, by decide⟩,
+    ⟨fun _ _ h => (by cases h), fun _ _ h => (by cases h)⟩, C05.demo_fieldsDistinct, fun _ _ h => (by cases h), hf, by decide⟩
+
+/-- two entry-point keys of one attacker that read as the same integer (`0` and `"0"` are two keys of a Python
+dictionary): the document is well shaped and both loaders accept it, but the attacker gets the same asset twice and
+the loaded model is not coherent (`Inv` fails) — which is why `DocOK` has `EntryIdsDistinct` -/
+theorem entry_point_keys_finding :
+    let d : PyDoc := { handPy with attackers := some [(.i 1, { name := some "eve", entry_points := some [(.i 0, { attack_steps := some ["access"] }), (.s (Key.i 0).text, { attack_steps := some [] })] })] }
+    docShape d = true ∧ ¬ (∀ t ∈ d.attackers.getD [], EntryIdsDistinct t.2) := by
+  refine ⟨by decide +kernel, fun h => ?_⟩
+  have := h _ List.mem_cons_self
+  unfold EntryIdsDistinct at this
+  simp only [Option.getD_some, List.map_cons, List.map_nil, C07.key_roundtrip] at this
+  simp [Key.toInt?] at this
+
+/-! ### invariants -/
+
+/-- `HeapSet` is an invariant of the translated mutators: after any admissible history of translated operations from
+the empty heap (for a language without an association class called `extras`) it holds -/
+theorem heapSet_invariant (L : Lang) (hL : NoExtrasClass L) (hLd : Tie.FieldsDistinct L) {env : ModelEnv} (hE : EqId env)
+    (ops : List Op) (hA : AdmAll L env {} ops) : HeapSet (ops.foldl (Tie.stepGen L env) {}) :=
+  heapSet_run L hL hLd hE ops hA
+
+/-- … and one step keeps it (freshness from `Inv`) -/
+theorem heapSet_step_invariant (L : Lang) (hL : NoExtrasClass L) (env : ModelEnv) (s : H) (hs : HeapSet s) (op : Op)
+    (hadm : Adm env s op) (hI : Inv (abs s)) : HeapSet (Tie.stepGen L env s op) :=
+  heapSet_step_inv L hL env s hs op hadm hI
 
 end MalVerif.PropsGen.C07
